@@ -570,6 +570,7 @@ def _run(res, r, tier, model):
 
     # ---- C15: decode(a || b) == decode(a) + decode(b) on the real code
     compose(res, r, tier, model)
+    compose_ipv4_unicast(res, r, tier)
 
 
 def compose(res, r, tier, model):
@@ -643,6 +644,46 @@ def compose(res, r, tier, model):
                     res.fail('C15', 'decode(a||b) != decode(a)+decode(b) for %s' % fam,
                              {'fam': fam, 'withdraw': wd, 'parts': [e.hex() for _, e in tp], 'whole': whole, 'want': want},
                              key=key)
+
+
+def compose_ipv4_unicast(res, r, tier):
+    """C15 for the IPv4 unicast NLRI decoder that MP_REACH_NLRI / MP_UNREACH_NLRI (1,1) use (IPv4Unicast.parse), with and
+    without ADD-PATH identifiers: decode(a||b) = decode(a) + decode(b).  Implementation only (the Lean multiprotocol model
+    covers the families of FAMS; the prefix list of the UPDATE body itself is in suite compose)."""
+    import struct
+    from yabgp.message.attribute.nlri.ipv4_unicast import IPv4Unicast
+    from lib.base import with_budget
+
+    def dec(b, addpath):
+        st, v = with_budget(2.0, IPv4Unicast.parse, bytes(b), addpath)
+        return ('ok', v) if st == 'ok' else (st, None)
+    for addpath in (False, True):
+        pool = []
+        for ln in (0, 1, 7, 8, 9, 15, 16, 17, 23, 24, 25, 31, 32):
+            n = (ln + 7) // 8
+            addr = bytes([10, 200 + ln, 3, 4])[:n]
+            if ln % 8 and n:
+                addr = addr[:-1] + bytes([addr[-1] & (0xff << (8 - ln % 8)) & 0xff])
+            enc = bytes([ln]) + addr
+            if addpath:
+                enc = struct.pack('!I', r.choice([0, 1, 2, 7, 2 ** 32 - 1, ln + 100])) + enc
+            pool.append(enc)
+        tuples = [(a, b) for a in pool for b in pool] + [tuple(r.choice(pool) for _ in range(r.choice([3, 5, 9]))) for _ in range(100)]
+        for tp in tuples:
+            whole = dec(b''.join(tp), addpath)
+            parts = [dec(e, addpath) for e in tp]
+            res.stats.case(('k', 'u4', addpath, b''.join(tp).hex()))
+            res.stats.hit('compose_u4' + ('_addpath' if addpath else ''))
+            if any(p[0] != 'ok' for p in parts):
+                res.fail('C15', 'a single well-formed IPv4 unicast NLRI entry does not decode', {'fam': 'u4', 'addpath': addpath,
+                                                                                             'parts': [e.hex() for e in tp]}, key='u4-single')
+                break
+            want = [x for p in parts for x in p[1]]
+            if whole[0] != 'ok' or whole[1] != want:
+                res.fail('C15', 'decode(a||b) != decode(a)+decode(b) for IPv4 unicast NLRI (MP_REACH_NLRI / MP_UNREACH_NLRI 1/1)',
+                         {'fam': 'u4', 'addpath': addpath, 'parts': [e.hex() for e in tp], 'whole': repr(whole)[:300], 'want': repr(want)[:300]},
+                         key='u4-compose')
+                break
 
 
 def zero_pair(tp):
